@@ -97,6 +97,25 @@ func plumbIssues(rs *Resid, plugin string) []sideIssue {
 		iss(fn, "shape", "no function parameter")
 		return out
 	}
+	// every type in the emitted signatures is one of the function argument's own parameter/result types: the type of
+	// another call-site argument (typs[1] of deriveApply(f, x)) is only assignable to the parameter — for an untyped
+	// constant it is the constant's default type (int for 3 where f wants float64)
+	if plugin != "tuple" {
+		seenT := map[string]bool{}
+		ast.Inspect(fn, func(n ast.Node) bool {
+			id, ok := n.(*ast.Ident)
+			if !ok || seenT[id.Name] {
+				return true
+			}
+			if h := rs.hole(id.Name); h != nil && h.Kind == "TYPE" {
+				seenT[id.Name] = true
+				if !strings.HasPrefix(h.Origin, "typs[0].") && h.Origin != "typs[0]" {
+					iss(id, "foreign-type", "the signature uses %s, the type of %s, which is not a parameter or result type of the function argument: the wrapper must declare its parameters with the function's own types", id.Name, shortSym(h.Origin))
+				}
+			}
+			return true
+		})
+	}
 	fname := outerNames[0]
 	ftype, ok := fn.Type.Params.List[0].Type.(*ast.FuncType)
 	if !ok {
